@@ -121,6 +121,10 @@ class Block:
         """Returns True if counts and gradings are defined for all axes"""
         return all(axis.is_defined for axis in self.axes)
 
+    def reset_gradings(self) -> None:
+        for axis in self.axes:
+            axis.wires.reset()
+
     def grade(self):
         for axis in self.axes:
             axis.grade()
